@@ -15,29 +15,43 @@ package v0
 // real p2p.Switch that is not listening.  Peers are scripted: a mock peer is added to the
 // switch's peer set, announces a range (StatusResponse through ReceiveEnvelope), records the
 // BlockRequests the reactor sends it and answers them through ReceiveEnvelope (BlockResponse,
-// i.e. through ValidateMsg and BlockFromProto) in an order chosen by the PRNG.  A stub
-// "CONSENSUS" reactor records SwitchToConsensus; the hand-over is then performed with the real
-// consensus.NewState (which calls reconstructLastCommit) on the node's state and block store,
-// panics recovered.
+// i.e. through ValidateMsg and BlockFromProto) in an order chosen by the PRNG.
+//
+// The hand-over is the real one: at node start a real consensus.State (consensus.NewState over
+// the node's state, BlockExecutor and block store, as node.NewNode does) and a real
+// consensus.Reactor (waitSync = true) are built and registered as the switch's "CONSENSUS"
+// reactor, wrapped only to recover a panic and to record the call.  When the pool is caught up
+// the blockchain reactor's own poolRoutine calls conR.SwitchToConsensus(state, blocksSynced > 0)
+// (scenarios); in the step cases, where a silent far-ahead peer keeps the pool syncing, the
+// harness makes that very call itself after the step.  Observed: panic or not, RoundState.Height,
+// RoundState.LastCommit against the stored seen commit, consensus state running.  Afterwards
+// consensus.NewState is additionally run on the node's state and block store (what a restart
+// does), panics recovered.
 //
 //   TestVerifC13Step      one pair (first, second) per case: peer 1 serves `first` for the node's
 //                         next height, peer 2 (or again peer 1) serves `second` whose LastCommit is
 //                         generated slot by slot (CStep).  Also calls VerifyCommitLight,
 //                         VerifyCommit and CommitToVoteSet directly on that commit.
 //   TestVerifC13Scenario  whole syncs against several peers (CScen, monitors only).
+//   TestVerifC13Handover  whole syncs at the boundaries of the hand-over (fresh node syncing 0, 1,
+//                         2, 3 blocks; restarted node; InitialHeight 1, 2, 5, 1000; lying peers at
+//                         the tip): a CScen and a CHand case per scenario.
 //
+// A world's chain has InitialHeight ih; its j-th block (j = 1..L) has height ih+j-1.
 // Numbering used in the terms and in the replay descriptions:
 //   key k        validator at position k of the validator set; its address is "k+1"
 //   address a    0 = empty, 1..n = address of key a-1, >= 1000 = 20 bytes owned by nobody
 //   chain        1 = the world's chain id, 2 = "c13-other"
-//   block id b   0 = BlockID{}, 1..L = canonical block of that height, 100+h = a valid block of
-//                height h that nobody committed (other txs), 300+h = canonical block h with a
+//   block id b   0 = BlockID{}, 1..L = the j-th canonical block, 100+j = a valid block of the
+//                j-th height that nobody committed (other txs), 300+j = canonical block j with a
 //                wrong AppHash (fails ValidateBlock), 200+x = a block id nobody has
 //   timestamp t  c13Base + t seconds
 //   peer p       1, 2, ... in the order they connect
 
 import (
 	"fmt"
+	"os"
+	"path/filepath"
 	"sort"
 	"strings"
 	"sync"
@@ -78,18 +92,29 @@ func c13Time(t int64) time.Time { return c13Base.Add(time.Duration(t) * time.Sec
 
 type c13World struct {
 	n       int
+	ih      int64 // GenesisDoc.InitialHeight
 	privs   []ed25519.PrivKey
 	addrs   []types.Address
 	powers  []int64
 	total   int64
 	genDoc  *types.GenesisDoc
-	blocks  []*types.Block  // 1..L
+	blocks  []*types.Block  // 1..L (index j: height ih+j-1)
 	ids     []types.BlockID // 1..L
-	commits []*types.Commit // commits[h]: every validator signs block h (1..L)
-	states  []sm.State      // states[h]: after block h (0 = genesis)
-	alt     []*types.Block  // alt[h]: valid block of height h with other txs (1..L)
-	bad     []*types.Block  // bad[h]: canonical block h with a wrong AppHash
+	commits []*types.Commit // commits[j]: every validator signs block j (1..L)
+	states  []sm.State      // states[j]: after block j (0 = genesis)
+	alt     []*types.Block  // alt[j]: valid block of the j-th height with other txs (1..L)
+	bad     []*types.Block  // bad[j]: canonical block j with a wrong AppHash
 	bids    map[int64]types.BlockID
+}
+
+// H is the height of the j-th block, J its inverse, lastH the State.LastBlockHeight after j blocks
+func (w *c13World) H(j int64) int64 { return w.ih + j - 1 }
+func (w *c13World) J(h int64) int64 { return h - w.ih + 1 }
+func (w *c13World) lastH(j int64) int64 {
+	if j == 0 {
+		return 0
+	}
+	return w.H(j)
 }
 
 type c13Exec struct {
@@ -118,7 +143,7 @@ func c13Txs(h int64, salt byte) []types.Tx {
 	return []types.Tx{[]byte{byte(h), 1, salt}, []byte{byte(h), 2, salt}}
 }
 
-func c13BuildWorld(powers []int64) *c13World {
+func c13BuildWorld(powers []int64, ih int64) *c13World {
 	n := len(powers)
 	type kp struct {
 		priv ed25519.PrivKey
@@ -131,8 +156,8 @@ func c13BuildWorld(powers []int64) *c13World {
 		gvals = append(gvals, types.GenesisValidator{PubKey: p.PubKey(), Power: powers[i]})
 		byAddr[string(p.PubKey().Address())] = kp{p, powers[i]}
 	}
-	w := &c13World{n: n, bids: map[int64]types.BlockID{0: {}}}
-	w.genDoc = &types.GenesisDoc{GenesisTime: c13Base, ChainID: c13Chain, Validators: gvals}
+	w := &c13World{n: n, ih: ih, bids: map[int64]types.BlockID{0: {}}}
+	w.genDoc = &types.GenesisDoc{GenesisTime: c13Base, ChainID: c13Chain, Validators: gvals, InitialHeight: ih}
 	state, err := sm.MakeGenesisState(w.genDoc)
 	if err != nil {
 		panic(err)
@@ -153,30 +178,25 @@ func c13BuildWorld(powers []int64) *c13World {
 	w.bad = make([]*types.Block, c13L+1)
 	w.states = []sm.State{state.Copy()}
 	last := types.NewCommit(0, 0, types.BlockID{}, nil)
-	for h := int64(1); h <= c13L; h++ {
+	for j := int64(1); j <= c13L; j++ {
+		h := w.H(j)
 		prop := state.Validators.GetProposer().Address
-		blk, parts := state.MakeBlock(h, c13Txs(h, 0), last, nil, prop)
-		w.alt[h], _ = state.MakeBlock(h, c13Txs(h, 7), last, nil, prop)
-		w.bad[h], _ = state.MakeBlock(h, c13Txs(h, 0), last, nil, prop)
-		w.bad[h].AppHash = []byte("verif-c13-wrong-app-hash-32bytes")
+		blk, parts := state.MakeBlock(h, c13Txs(j, 0), last, nil, prop)
+		w.alt[j], _ = state.MakeBlock(h, c13Txs(j, 7), last, nil, prop)
+		w.bad[j], _ = state.MakeBlock(h, c13Txs(j, 0), last, nil, prop)
+		w.bad[j].AppHash = []byte("verif-c13-wrong-app-hash-32bytes")
 		bid := types.BlockID{Hash: blk.Hash(), PartSetHeader: parts.Header()}
-		w.blocks[h], w.ids[h] = blk, bid
-		w.bids[h] = bid
-		w.bids[100+h] = c13IDOf(w.alt[h])
-		w.bids[300+h] = c13IDOf(w.bad[h])
+		w.blocks[j], w.ids[j] = blk, bid
+		w.bids[j] = bid
+		w.bids[100+j] = c13IDOf(w.alt[j])
+		w.bids[300+j] = c13IDOf(w.bad[j])
 		state, _, err = ex.blockExec.ApplyBlock(state, bid, blk)
 		if err != nil {
 			panic(err)
 		}
 		w.states = append(w.states, state.Copy())
-		var sigs []types.CommitSig
-		for k := 0; k < n; k++ {
-			ts := h*10 + int64(k)
-			sigs = append(sigs, types.CommitSig{BlockIDFlag: types.BlockIDFlagCommit, ValidatorAddress: w.addrs[k],
-				Timestamp: c13Time(ts), Signature: w.sign(int64(k), c13Msg{int64(tmproto.PrecommitType), 1, h, 0, h, ts})})
-		}
-		last = types.NewCommit(h, 0, bid, sigs)
-		w.commits[h] = last
+		last = w.realCommit(w.genuine(j, j)) // every validator signs block j
+		w.commits[j] = last
 	}
 	for x := int64(1); x <= 3; x++ {
 		hh := make([]byte, 32)
@@ -203,8 +223,11 @@ type c13SigKey struct {
 }
 
 var c13SigCache = map[c13SigKey][]byte{}
+var c13SigMtx sync.Mutex
 
 func (w *c13World) sign(k int64, m c13Msg) []byte {
+	c13SigMtx.Lock()
+	defer c13SigMtx.Unlock()
 	ck := c13SigKey{w, k, m}
 	if s, ok := c13SigCache[ck]; ok {
 		return s
@@ -339,11 +362,12 @@ func (c *c13Commit) descr() string {
 		c.ch, c.cr, c.cb, c.chain, c.bh, c.br, c.bb, strings.Join(xs, "; "))
 }
 
-// genuine: every validator signs block id bid at height h, round 0
-func (w *c13World) genuine(h, bid int64) *c13Commit {
+// genuine: every validator signs block id bid at the j-th height, round 0
+func (w *c13World) genuine(j, bid int64) *c13Commit {
+	h := w.H(j)
 	c := &c13Commit{ch: h, cr: 0, cb: bid, chain: 1, bh: h, br: 0, bb: bid}
 	for k := 0; k < w.n; k++ {
-		ts := h*10 + int64(k)
+		ts := j*10 + int64(k)
 		c.slots = append(c.slots, c13Slot{flag: 2, addr: int64(k + 1), ts: ts, kind: 'B', k: int64(k), sts: ts})
 	}
 	return c
@@ -368,9 +392,10 @@ var c13CommitKinds = []string{
 	"swap", "late-nil-flag-block-sig", "ts-mismatch", "late-absent-to-garbage-nil", "empty-addr-late",
 }
 
-// mutate builds the commit of the given kind for block id fid at height fh.
-func (w *c13World) mutate(kind string, fh, fid int64, r *vg.Rand) *c13Commit {
-	c := w.genuine(fh, fid)
+// mutate builds the commit of the given kind for block id fid at the fj-th height.
+func (w *c13World) mutate(kind string, fj, fid int64, r *vg.Rand) *c13Commit {
+	c := w.genuine(fj, fid)
+	fh := w.H(fj)
 	stop := w.lightStop()
 	late := w.n - 1 // a slot the early-exit variant never reads (needs stop < n-1)
 	absent := func(i int) { c.slots[i] = c13Slot{flag: 1} }
@@ -412,10 +437,10 @@ func (w *c13World) mutate(kind string, fh, fid int64, r *vg.Rand) *c13Commit {
 		i := r.Intn(w.n)
 		c.slots[i].k = int64((i + 1) % w.n)
 	case "commit-other-block":
-		ob := []int64{100 + fh, 201, 300 + fh}[r.Intn(3)]
+		ob := []int64{100 + fj, 201, 300 + fj}[r.Intn(3)]
 		c.cb, c.bb = ob, ob
 	case "sigs-other-block":
-		c.bb = []int64{100 + fh, 201, 0}[r.Intn(3)]
+		c.bb = []int64{100 + fj, 201, 0}[r.Intn(3)]
 	case "sigs-other-round":
 		c.br = 1
 	case "sigs-other-chain":
@@ -483,40 +508,87 @@ func (p *c13Peer) handle(e p2p.Envelope) bool {
 func (p *c13Peer) SendEnvelope(e p2p.Envelope) bool    { return p.handle(e) }
 func (p *c13Peer) TrySendEnvelope(e p2p.Envelope) bool { return p.handle(e) }
 
+// what the blockchain reactor handed to consensus, and how consensus took it
+type c13Switch struct {
+	state    sm.State
+	skipWAL  bool
+	panicked string // "" = SwitchToConsensus returned
+}
+
+// c13ConsR is the node's "CONSENSUS" reactor: the real consensus.Reactor; SwitchToConsensus is
+// wrapped only so that a panic inside it is recorded instead of killing the test binary from
+// the pool routine.
 type c13ConsR struct {
-	p2p.BaseReactor
-	ch chan sm.State
+	*consensus.Reactor
+	ch chan c13Switch
 }
 
 func (c *c13ConsR) SwitchToConsensus(state sm.State, skipWAL bool) {
+	res := c13Switch{state: state, skipWAL: skipWAL}
+	defer func() {
+		if p := recover(); p != nil {
+			res.panicked = fmt.Sprint(p)
+		}
+		select {
+		case c.ch <- res:
+		default:
+		}
+	}()
+	c.Reactor.SwitchToConsensus(state, skipWAL)
+}
+
+// stand-in used only when consensus.NewState panicked at node start (recorded as an observation)
+type c13StubConsR struct {
+	p2p.BaseReactor
+	ch chan c13Switch
+}
+
+func (c *c13StubConsR) SwitchToConsensus(state sm.State, skipWAL bool) {
 	select {
-	case c.ch <- state:
+	case c.ch <- c13Switch{state: state, skipWAL: skipWAL}:
 	default:
 	}
 }
 
 type c13Node struct {
-	w     *c13World
-	ex    *c13Exec
-	bcR   *BlockchainReactor
-	sw    *p2p.Switch
-	cons  *c13ConsR
-	reqCh chan c13Req
-	peers []*c13Peer
+	w        *c13World
+	ex       *c13Exec
+	bcR      *BlockchainReactor
+	sw       *p2p.Switch
+	startOK  bool // consensus.NewState at node start returned
+	startH   int64
+	conS     *consensus.State
+	cons     *c13ConsR
+	switchCh chan c13Switch
+	eventBus *types.EventBus
+	dir      string
+	reqCh    chan c13Req
+	peers    []*c13Peer
 }
 
+func c13NewConsState(ccfg *cfg.ConsensusConfig, state sm.State, ex *c13Exec) (cs *consensus.State, ok bool) {
+	defer func() {
+		if r := recover(); r != nil {
+			cs, ok = nil, false
+		}
+	}()
+	cs = consensus.NewState(ccfg, state, ex.blockExec, ex.blockStore, mpmock.Mempool{}, sm.EmptyEvidencePool{})
+	return cs, true
+}
+
+// c13NewNode: a node that has applied and stored the first `start` blocks of the world
 func c13NewNode(w *c13World, start int64) *c13Node {
 	ex := c13NewExec(w.states[0].Copy())
 	state := w.states[0].Copy()
-	for h := int64(1); h <= start; h++ {
-		blk := w.blocks[h]
+	for j := int64(1); j <= start; j++ {
+		blk := w.blocks[j]
 		parts := blk.MakePartSet(types.BlockPartSizeBytes)
 		var err error
-		state, _, err = ex.blockExec.ApplyBlock(state, w.ids[h], blk)
+		state, _, err = ex.blockExec.ApplyBlock(state, w.ids[j], blk)
 		if err != nil {
 			panic(err)
 		}
-		ex.blockStore.SaveBlock(blk, parts, w.commits[h])
+		ex.blockStore.SaveBlock(blk, parts, w.commits[j])
 	}
 	bcR := NewBlockchainReactor(state.Copy(), ex.blockExec, ex.blockStore, true)
 	bcR.SetLogger(log.NewNopLogger())
@@ -525,10 +597,40 @@ func c13NewNode(w *c13World, start int64) *c13Node {
 	sw := p2p.NewSwitch(cfg.DefaultP2PConfig(), tr)
 	sw.SetLogger(log.NewNopLogger())
 	sw.AddReactor("BLOCKCHAIN", bcR)
-	cons := &c13ConsR{ch: make(chan sm.State, 1)}
-	cons.BaseReactor = *p2p.NewBaseReactor("CONSENSUS", cons)
-	sw.AddReactor("CONSENSUS", cons)
-	n := &c13Node{w: w, ex: ex, bcR: bcR, sw: sw, cons: cons, reqCh: make(chan c13Req, 4096)}
+	n := &c13Node{w: w, ex: ex, bcR: bcR, sw: sw, startH: state.LastBlockHeight,
+		switchCh: make(chan c13Switch, 1), reqCh: make(chan c13Req, 4096)}
+
+	// consensus as node.NewNode builds it (createConsensusReactor), on the node's own stores;
+	// the WAL goes to a scratch directory, the commit timeout is long so that the started state
+	// machine sits in NewHeight while it is observed
+	dir, err := os.MkdirTemp("", "verif-c13-")
+	if err != nil {
+		panic(err)
+	}
+	n.dir = dir
+	ccfg := cfg.TestConsensusConfig()
+	ccfg.SetWalFile(filepath.Join(dir, "cs.wal", "wal"))
+	ccfg.TimeoutCommit = 3 * time.Second
+	ccfg.SkipTimeoutCommit = false
+	n.conS, n.startOK = c13NewConsState(ccfg, state.Copy(), ex)
+	if n.startOK {
+		n.eventBus = types.NewEventBus()
+		n.eventBus.SetLogger(log.NewNopLogger())
+		if err := n.eventBus.Start(); err != nil {
+			panic(err)
+		}
+		n.conS.SetLogger(log.NewNopLogger())
+		n.conS.SetEventBus(n.eventBus)
+		conR := consensus.NewReactor(n.conS, true)
+		conR.SetLogger(log.NewNopLogger())
+		conR.SetEventBus(n.eventBus)
+		n.cons = &c13ConsR{Reactor: conR, ch: n.switchCh}
+		sw.AddReactor("CONSENSUS", n.cons)
+	} else {
+		stub := &c13StubConsR{ch: n.switchCh}
+		stub.BaseReactor = *p2p.NewBaseReactor("CONSENSUS", stub)
+		sw.AddReactor("CONSENSUS", stub)
+	}
 	if err := bcR.Start(); err != nil {
 		panic(err)
 	}
@@ -540,7 +642,133 @@ func (n *c13Node) close() {
 	for _, p := range n.peers {
 		p.Stop() //nolint:errcheck
 	}
+	if n.conS != nil && n.conS.IsRunning() {
+		n.conS.Stop() //nolint:errcheck
+		n.conS.Wait()
+	}
+	if n.eventBus != nil {
+		n.eventBus.Stop() //nolint:errcheck
+	}
 	n.ex.app.Stop() //nolint:errcheck
+	os.RemoveAll(n.dir)
+}
+
+// what is observed of the real hand-over
+type c13HandObs struct {
+	sres    uint64 // 0 SwitchToConsensus returned, 1 panicked, 2 not called, 3 NewState at node start panicked
+	h1      int64  // LastBlockHeight of the state handed over
+	skipWAL bool
+	height  int64  // RoundState.Height afterwards (-1 = not observed)
+	lcc     uint64 // RoundState.LastCommit: 0 nil, 1 equals the stored seen commit of h1, 2 other, 3 not observed
+	running bool   // consensus state running, WaitSync() false
+	msg     string
+}
+
+func c13SameCommit(a, b *types.Commit) bool {
+	if a == nil || b == nil || a.Height != b.Height || a.Round != b.Round || !a.BlockID.Equals(b.BlockID) ||
+		len(a.Signatures) != len(b.Signatures) {
+		return false
+	}
+	for i := range a.Signatures {
+		x, y := a.Signatures[i], b.Signatures[i]
+		if x.BlockIDFlag != y.BlockIDFlag || string(x.ValidatorAddress) != string(y.ValidatorAddress) ||
+			!x.Timestamp.Equal(y.Timestamp) || string(x.Signature) != string(y.Signature) {
+			return false
+		}
+	}
+	return true
+}
+
+// observe: the consensus state after the call `res` of SwitchToConsensus
+func (n *c13Node) observe(res *c13Switch) (o c13HandObs) {
+	o = c13HandObs{sres: 2, height: -1, lcc: 3}
+	if !n.startOK {
+		o.sres = 3
+		return o
+	}
+	if res == nil {
+		return o
+	}
+	o.h1, o.skipWAL = res.state.LastBlockHeight, res.skipWAL
+	if res.panicked != "" {
+		o.sres, o.msg = 1, res.panicked
+		return o
+	}
+	o.sres = 0
+	rs := n.conS.GetRoundState()
+	o.height = rs.Height
+	o.running = n.conS.IsRunning() && !n.cons.WaitSync()
+	func() {
+		defer func() {
+			if r := recover(); r != nil {
+				o.lcc = 2
+			}
+		}()
+		switch {
+		case rs.LastCommit == nil:
+			o.lcc = 0
+		case c13SameCommit(rs.LastCommit.MakeCommit(), n.ex.blockStore.LoadSeenCommit(o.h1)):
+			o.lcc = 1
+		default:
+			o.lcc = 2
+		}
+	}()
+	return o
+}
+
+// switchNow makes the call poolRoutine makes when the pool is caught up:
+// conR.SwitchToConsensus(state, blocksSynced > 0 || stateSynced), with the state the node saved
+func (n *c13Node) switchNow(blocksSynced bool) *c13Switch {
+	if !n.startOK {
+		return nil
+	}
+	state, err := n.ex.stateStore.Load()
+	if err != nil {
+		return nil
+	}
+	conR, ok := n.sw.Reactor("CONSENSUS").(consensusReactor)
+	if !ok {
+		return nil
+	}
+	conR.SwitchToConsensus(state, blocksSynced)
+	select {
+	case res := <-n.switchCh:
+		return &res
+	default:
+		return nil
+	}
+}
+
+// c13VerifySeen checks, without ValidatorSet.VerifyCommit, that c is a commit for the world's
+// j-th block: one slot per validator, every non-absent slot signed by the positional
+// validator's key over the vote the slot stands for, more than 2/3 of the power for the block
+// (the slot's ValidatorAddress is not looked at: that is the contract of VerifyCommit)
+func (w *c13World) c13VerifySeen(j int64, c *types.Commit) (ok bool) {
+	defer func() {
+		if r := recover(); r != nil {
+			ok = false
+		}
+	}()
+	if c == nil || c.Height != w.H(j) || !c.BlockID.Equals(w.ids[j]) || len(c.Signatures) != w.n {
+		return false
+	}
+	tally := int64(0)
+	for i, s := range c.Signatures {
+		if s.Absent() {
+			continue
+		}
+		if s.BlockIDFlag != types.BlockIDFlagCommit && s.BlockIDFlag != types.BlockIDFlagNil {
+			return false
+		}
+		v := c.GetVote(int32(i))
+		if !w.privs[i].PubKey().VerifySignature(types.VoteSignBytes(c13Chain, v.ToProto()), s.Signature) {
+			return false
+		}
+		if s.ForBlock() {
+			tally += w.powers[i]
+		}
+	}
+	return 3*tally > 2*w.total
 }
 
 // connect adds peer number len+1 and lets it announce [base, height]
@@ -601,7 +829,7 @@ func (n *c13Node) stopped() []int64 {
 	return xs
 }
 
-// handover: consensus.NewState on the state the node saved and its block store
+// handover: consensus.NewState on the state the node saved and its block store (a restart)
 func (n *c13Node) handover() (res uint64) {
 	state, err := n.ex.stateStore.Load()
 	if err != nil {
@@ -616,10 +844,10 @@ func (n *c13Node) handover() (res uint64) {
 	return 0
 }
 
-// second builds a block of height h+1 on top of the world's state after h whose LastCommit is c
-func (w *c13World) second(h int64, c *types.Commit) *types.Block {
-	st := w.states[h]
-	b, _ := st.MakeBlock(h+1, c13Txs(h+1, 0), c, nil, st.Validators.GetProposer().Address)
+// second builds the block after the j-th one on top of the world's state after j whose LastCommit is c
+func (w *c13World) second(j int64, c *types.Commit) *types.Block {
+	st := w.states[j]
+	b, _ := st.MakeBlock(w.H(j)+1, c13Txs(j+1, 0), c, nil, st.Validators.GetProposer().Address)
 	return b
 }
 
@@ -666,12 +894,25 @@ func c13CTV(chain string, c *types.Commit, vals *types.ValidatorSet) (res uint64
 
 var c13Worlds []*c13World
 
+var c13Powers = [][]int64{{10, 10, 10, 10}, {40, 25, 20, 10, 5}, {7, 6, 5, 4, 3, 2, 1}}
+var c13IHs = []int64{1, 2, 5, 1000}
+
+// worlds 0..2: InitialHeight 1 with the three power vectors; 3..5: InitialHeight 2, 5, 1000;
+// thorough tier: the remaining combinations as well
 func c13GetWorlds() []*c13World {
 	if c13Worlds == nil {
-		c13Worlds = []*c13World{
-			c13BuildWorld([]int64{10, 10, 10, 10}),
-			c13BuildWorld([]int64{40, 25, 20, 10, 5}),
-			c13BuildWorld([]int64{7, 6, 5, 4, 3, 2, 1}),
+		for _, p := range c13Powers {
+			c13Worlds = append(c13Worlds, c13BuildWorld(p, 1))
+		}
+		for i, ih := range c13IHs[1:] {
+			c13Worlds = append(c13Worlds, c13BuildWorld(c13Powers[i], ih))
+		}
+		if vg.Thorough() {
+			for i, ih := range c13IHs[1:] {
+				for d := 1; d < 3; d++ {
+					c13Worlds = append(c13Worlds, c13BuildWorld(c13Powers[(i+d)%3], ih))
+				}
+			}
 		}
 	}
 	return c13Worlds
@@ -680,7 +921,7 @@ func c13GetWorlds() []*c13World {
 type c13StepCase struct {
 	w          *c13World
 	wi         int
-	fh         int64
+	fh         int64 // index j of `first` (its height is w.H(fh))
 	firstKind  string // canon | alt | bad
 	commitKind string
 	same       bool // one peer supplies both blocks
@@ -731,7 +972,7 @@ func c13GenStep(k int, r *vg.Rand) c13StepCase {
 			last := sc.w.n - 1
 			s := sc.c.slots[last]
 			sc.c.slots[last] = c13Slot{flag: 2, addr: s.addr, ts: s.ts, kind: 'O', k: s.k,
-				m: c13Msg{int64(tmproto.PrecommitType), 1, sc.fh, 0, fid, s.ts}}
+				m: c13Msg{int64(tmproto.PrecommitType), 1, sc.w.H(sc.fh), 0, fid, s.ts}}
 			sc.commitKind = "claims-alt-one-signer"
 		}
 	case "bad":
@@ -758,7 +999,7 @@ func (sc c13StepCase) first() (*types.Block, int64) {
 func TestVerifC13Step(t *testing.T) {
 	cs := vg.NewCases("C13", "c13_step", "TM.C13.Exec")
 	root := vg.NewRand(vg.Seed())
-	n := vg.Scale(150, 3000)
+	n := vg.Scale(180, 3000)
 	for k := 0; k < n; k++ {
 		id := cs.NextID()
 		if !cs.Want(id) {
@@ -775,38 +1016,39 @@ func TestVerifC13Step(t *testing.T) {
 			cs.Count("untransportable:"+sc.commitKind, 1)
 			continue
 		}
+		fh := w.H(sc.fh) // height of first
 		vals := w.states[sc.fh-1].Validators
 		firstBID := w.bids[fid]
-		lc, lg, ln := c13Class(func() error { return vals.Copy().VerifyCommitLight(c13Chain, firstBID, sc.fh, commit) })
-		fc, fg, fn := c13Class(func() error { return vals.Copy().VerifyCommit(c13Chain, firstBID, sc.fh, commit) })
+		lc, lg, ln := c13Class(func() error { return vals.Copy().VerifyCommitLight(c13Chain, firstBID, fh, commit) })
+		fc, fg, fn := c13Class(func() error { return vals.Copy().VerifyCommit(c13Chain, firstBID, fh, commit) })
 		ctv := c13CTV(c13Chain, commit, vals.Copy())
 
 		node := c13NewNode(w, sc.fh-1)
 		vok := node.ex.blockExec.ValidateBlock(w.states[sc.fh-1], first) == nil
 		var p1, p2 *c13Peer
 		if sc.same {
-			p1 = node.connect(sc.fh, sc.fh+1)
+			p1 = node.connect(fh, fh+1)
 			p2 = p1
 		} else {
-			p1 = node.connect(sc.fh, sc.fh)
-			p2 = node.connect(sc.fh+1, sc.fh+1)
+			p1 = node.connect(fh, fh)
+			p2 = node.connect(fh+1, fh+1)
 		}
-		node.connect(sc.fh+9, sc.fh+9) // silent, keeps the node from declaring itself caught up
+		node.connect(fh+9, fh+9) // silent, keeps the node from declaring itself caught up
 		deadline := time.Now().Add(4 * time.Second)
 		saved := false
 		for time.Now().Before(deadline) {
 			select {
 			case rq := <-node.reqCh:
 				switch {
-				case rq.p == p1 && rq.height == sc.fh:
+				case rq.p == p1 && rq.height == fh:
 					node.deliver(p1, first)
-				case rq.p == p2 && rq.height == sc.fh+1:
+				case rq.p == p2 && rq.height == fh+1:
 					node.deliver(p2, second)
 				}
 				continue
 			case <-time.After(3 * time.Millisecond):
 			}
-			if node.ex.blockStore.Height() >= sc.fh {
+			if node.ex.blockStore.Height() >= fh {
 				saved = true
 				break
 			}
@@ -819,37 +1061,46 @@ func TestVerifC13Step(t *testing.T) {
 		if saved {
 			// wait for ApplyBlock to have saved the state
 			for i := 0; i < 200; i++ {
-				if st, err := node.ex.stateStore.Load(); err == nil && st.LastBlockHeight >= sc.fh {
+				if st, err := node.ex.stateStore.Load(); err == nil && st.LastBlockHeight >= fh {
 					break
 				}
 				time.Sleep(5 * time.Millisecond)
 			}
-			if m := node.ex.blockStore.LoadBlockMeta(sc.fh); m != nil && m.BlockID.Equals(firstBID) {
+			if m := node.ex.blockStore.LoadBlockMeta(fh); m != nil && m.BlockID.Equals(firstBID) {
 				storedOK = true
 			}
 		}
 		ph, _, _ := node.bcR.pool.GetStatus()
 		stopped := node.stopped()
-		r1p, r1b := node.reqView(sc.fh)
-		r2p, r2b := node.reqView(sc.fh + 1)
+		r1p, r1b := node.reqView(fh)
+		r2p, r2b := node.reqView(fh + 1)
 		ho := uint64(2)
+		hob := c13HandObs{sres: 2, height: -1, lcc: 3}
+		if !node.startOK {
+			hob.sres = 3
+		}
 		if saved {
 			node.bcR.Stop() //nolint:errcheck
+			// the hand-over poolRoutine performs once the pool is caught up, on the real
+			// consensus reactor built at node start; then what a restart does
+			hob = node.observe(node.switchNow(true))
 			ho = node.handover()
 		}
 		node.close()
 
 		cm, base, sigs := sc.c.terms()
-		term := vg.App("CStep", w.valsTerm(), vg.Z(1), vg.Z(sc.fh-1),
-			vg.Tup(vg.Z(sc.fh), vg.Z(fid), vg.B(vok)), vg.Z(sc.fh), cm, base, sigs,
+		term := vg.App("CStep", w.valsTerm(), vg.Z(1), vg.Z(w.lastH(sc.fh-1)),
+			vg.Tup(vg.Z(fh), vg.Z(fid), vg.B(vok)), vg.Z(sc.fh), cm, base, sigs,
 			vg.Z(p1.num), vg.Z(p2.num),
 			vg.Tup(c13Rest(lc, lg, ln), c13Rest(fc, fg, fn), vg.N(ctv)),
 			vg.Tup(vg.B(saved && storedOK), vg.Z(ph), vg.ZL(stopped), vg.Tup(vg.Z(r1p), vg.B(r1b)),
-				vg.Tup(vg.Z(r2p), vg.B(r2b)), vg.N(ho)))
-		descr := fmt.Sprintf("world %d (powers %v, chain %q), node has applied blocks 1..%d. Peer %d answers the request for height %d with the %s block (id %d, ValidateBlock ok=%v); peer %d answers the request for height %d with a block whose LastCommit is [%s] %s. "+
-			"Direct calls on that commit: VerifyCommitLight class %d, VerifyCommit class %d, CommitToVoteSet %d (0 ok,1 no +2/3,2 panic). Observed: block stored=%v, pool.height=%d, peers stopped=%v, requester[%d]=(peer %d, block %v), requester[%d]=(peer %d, block %v), consensus.NewState on the result=%d (0 ok,1 panic,2 not run)",
-			sc.wi, w.powers, c13Chain, sc.fh-1, p1.num, sc.fh, sc.firstKind, fid, vok, p2.num, sc.fh+1, sc.commitKind, sc.c.descr(),
-			lc, fc, ctv, saved && storedOK, ph, stopped, sc.fh, r1p, r1b, sc.fh+1, r2p, r2b, ho)
+				vg.Tup(vg.Z(r2p), vg.B(r2b)), vg.N(ho)),
+			vg.Tup(vg.Z(w.ih), vg.N(hob.sres), vg.Z(hob.height), vg.N(hob.lcc)))
+		descr := fmt.Sprintf("world %d (powers %v, chain %q, InitialHeight %d), node has applied the first %d blocks (State.LastBlockHeight %d). Peer %d answers the request for height %d with the %s block (id %d, ValidateBlock ok=%v); peer %d answers the request for height %d with a block whose LastCommit is [%s] %s. "+
+			"Direct calls on that commit: VerifyCommitLight class %d, VerifyCommit class %d, CommitToVoteSet %d (0 ok,1 no +2/3,2 panic). Observed: block stored=%v, pool.height=%d, peers stopped=%v, requester[%d]=(peer %d, block %v), requester[%d]=(peer %d, block %v); "+
+			"consensus Reactor.SwitchToConsensus(state after the step, true) on the consensus state built at node start=%d (0 returned,1 panicked,2 not run,3 NewState at start panicked) %q, consensus height afterwards %d, LastCommit class %d (0 nil,1 = stored seen commit,2 other,3 n/a); consensus.NewState on the result=%d (0 ok,1 panic,2 not run)",
+			sc.wi, w.powers, c13Chain, w.ih, sc.fh-1, w.lastH(sc.fh-1), p1.num, fh, sc.firstKind, fid, vok, p2.num, fh+1, sc.commitKind, sc.c.descr(),
+			lc, fc, ctv, saved && storedOK, ph, stopped, fh, r1p, r1b, fh+1, r2p, r2b, hob.sres, hob.msg, hob.height, hob.lcc, ho)
 		cs.Add(id, "step:"+sc.firstKind+":"+strings.SplitN(sc.commitKind, "/", 2)[0], sc.commitKind != "genuine", term, descr)
 	}
 	if err := cs.Write(); err != nil {
@@ -865,13 +1116,15 @@ func c13Proto(b *types.Block) *tmproto.Block {
 	return bp
 }
 
-// ------------------------------------------------------------------ TestVerifC13Scenario
+// ------------------------------------------------------------------ scenarios
 
-// scripts: 0 honest; 1 serves the never-committed alt block at even heights; 2 serves blocks
-// whose LastCommit has a garbage signature in slot 0; 3 serves the tip block with a LastCommit
-// whose last slot is a nil vote with a garbage signature (the rest genuine: F7); 4 answers every
-// request with a block 150 heights ahead; 5 sends every block twice; 6 serves the tip block with a
-// LastCommit in which one slot carries a foreign address (all signatures genuine: known class 31)
+// scripts: 0 honest; 1 serves the never-committed alt block at even positions j; 2 serves blocks
+// whose LastCommit has a garbage signature in slot 0; 3 serves the block at its own announced top
+// with a LastCommit whose last slot is a nil vote with a garbage signature (the rest genuine:
+// F7); 4 answers every request with a block 150 heights ahead; 5 sends every block twice; 6
+// serves the block at its own announced top with a LastCommit in which one slot carries a
+// foreign address (all signatures genuine: known class 31).
+// base, height, start, tip are positions j in the world's chain (height ih+j-1).
 type c13PeerSpec struct {
 	script       uint64
 	base, height int64
@@ -880,8 +1133,8 @@ type c13PeerSpec struct {
 type c13Scen struct {
 	name  string
 	wi    int
-	start int64
-	tip   int64 // height announced by the honest peers
+	start int64 // blocks the node has applied and stored at start
+	tip   int64 // top announced by the honest peers
 	peers []c13PeerSpec
 }
 
@@ -900,9 +1153,10 @@ func c13Scenarios(r *vg.Rand, n int) []c13Scen {
 		{"mix-from-2", 1, 2, L, []c13PeerSpec{{1, 1, 4}, {2, 3, L}, {0, 1, L}, {0, 1, L}, {0, 1, L}}},
 		{"forged-commit-second-only", 2, 0, L, []c13PeerSpec{{2, 3, 3}, {0, 1, 2}, {0, 1, 2}, {0, 1, L}}},
 	}
+	nw := len(c13GetWorlds())
 	for len(ss) < n {
 		k := len(ss)
-		sc := c13Scen{name: fmt.Sprintf("random-%d", k), wi: r.Intn(3), start: int64(r.Intn(3)), tip: L}
+		sc := c13Scen{name: fmt.Sprintf("random-%d", k), wi: r.Intn(nw), start: int64(r.Intn(3)), tip: L}
 		np := 3 + r.Intn(3)
 		for i := 0; i < np; i++ {
 			s := uint64(0)
@@ -916,177 +1170,388 @@ func c13Scenarios(r *vg.Rand, n int) []c13Scen {
 	return ss[:n]
 }
 
+// the boundaries of the hand-over, for world wi: a fresh node syncing 0, 1, 2, 3 blocks (honest
+// tip at position 1..4: the node applies a block only when it has the next one), a restarted
+// node syncing 0, 1, 2 blocks, and the lying-peer scripts placed at these boundaries
+func c13HandScenarios(wi int) []c13Scen {
+	h2 := func(t int64) []c13PeerSpec { return []c13PeerSpec{{0, 1, t}, {0, 1, t}} }
+	with := func(liar c13PeerSpec, t int64, honest int) []c13PeerSpec {
+		ps := []c13PeerSpec{liar}
+		for i := 0; i < honest; i++ {
+			ps = append(ps, c13PeerSpec{0, 1, t})
+		}
+		return ps
+	}
+	return []c13Scen{
+		{"fresh-sync0", wi, 0, 1, h2(1)},
+		{"fresh-sync1", wi, 0, 2, h2(2)},
+		{"fresh-sync2", wi, 0, 3, h2(3)},
+		{"fresh-sync3", wi, 0, 4, h2(4)},
+		{"restart1-sync0", wi, 1, 2, h2(2)},
+		{"restart1-sync1", wi, 1, 3, h2(3)},
+		{"restart2-sync1", wi, 2, 4, h2(4)},
+		{"restart2-sync2", wi, 2, 5, h2(5)},
+		{"fresh-foreign-at-2", wi, 0, 1, with(c13PeerSpec{6, 2, 2}, 1, 2)},
+		{"fresh-padded-at-2", wi, 0, 1, with(c13PeerSpec{3, 2, 2}, 1, 2)},
+		{"fresh-padded-at-3", wi, 0, 2, with(c13PeerSpec{3, 3, 3}, 2, 2)},
+		{"fresh-foreign-at-3", wi, 0, 2, with(c13PeerSpec{6, 3, 3}, 2, 2)},
+		{"fresh-alt-tip3", wi, 0, 3, with(c13PeerSpec{1, 1, 3}, 3, 2)},
+		{"fresh-forged-tip2", wi, 0, 2, with(c13PeerSpec{2, 1, 2}, 2, 3)},
+		{"restart1-padded-at-3", wi, 1, 2, with(c13PeerSpec{3, 3, 3}, 2, 2)},
+		{"restart1-foreign-at-3", wi, 1, 2, with(c13PeerSpec{6, 3, 3}, 2, 2)},
+	}
+}
+
+type c13ScenResult struct {
+	stored    []int64 // ids in the store, positions 1..
+	switched  bool
+	ho        uint64 // consensus.NewState on the result: 0 ok, 1 panic, 2 not run
+	seenClass uint64
+	nbad      int64
+	used      []bool
+	stopped   []bool
+	journal   []string
+	hob       c13HandObs
+	startOK   bool
+	h0, h1    int64      // State.LastBlockHeight at node start / handed over (or saved, when never switched)
+	seen0     *c13Commit // how the seen commits stored for h0 / h1 were made (nil: height 0 or unknown)
+	seen1     *c13Commit
+	verified  bool
+}
+
+func c13RunScen(sc c13Scen, r *vg.Rand) *c13ScenResult {
+	w := c13GetWorlds()[sc.wi]
+	node := c13NewNode(w, sc.start)
+	L := c13L
+	res := &c13ScenResult{startOK: node.startOK, h0: node.startH}
+	var foreign *c13Commit
+	var foreignReal *types.Commit
+	top := int64(0)
+	for _, ps := range sc.peers {
+		node.connect(w.H(ps.base), w.H(ps.height))
+		if ps.height > top {
+			top = ps.height
+		}
+	}
+	used := make([]bool, len(sc.peers))
+	serve := func(rq c13Req) {
+		i := int(rq.p.num - 1)
+		ps, j := sc.peers[i], w.J(rq.height)
+		if j < 1 || j > L || !rq.p.IsRunning() {
+			return
+		}
+		accepted := func(b *types.Block) bool {
+			pn, has := node.reqView(b.Height)
+			return has && pn == rq.p.num
+		}
+		switch ps.script {
+		case 0:
+			node.deliver(rq.p, w.blocks[j])
+		case 1:
+			if j%2 == 0 {
+				node.deliver(rq.p, w.alt[j])
+				// an alt block at the very top only ever serves as "second" of the last pair; its
+				// LastCommit is the genuine commit of the block before, so nothing the node can
+				// check distinguishes it from the canonical block, and it is never stored: not a
+				// bad answer the node could have acted on
+				if accepted(w.alt[j]) && j < top {
+					used[i] = true
+					res.nbad++
+					res.journal = append(res.journal, fmt.Sprintf("peer %d: alt block for height %d", rq.p.num, rq.height))
+				}
+			} else {
+				node.deliver(rq.p, w.blocks[j])
+			}
+		case 2:
+			if j >= 2 {
+				b := w.second(j-1, w.realCommit(w.mutate("garbage-early", j-1, j-1, r)))
+				node.deliver(rq.p, b)
+				if accepted(b) {
+					used[i] = true
+					res.nbad++
+					res.journal = append(res.journal, fmt.Sprintf("peer %d: block %d with garbage signature in its LastCommit", rq.p.num, rq.height))
+				}
+			} else {
+				node.deliver(rq.p, w.blocks[j])
+			}
+		case 3:
+			if j == ps.height && j >= 2 {
+				b := w.second(j-1, w.realCommit(w.mutate("garbage-late-nil", j-1, j-1, r)))
+				node.deliver(rq.p, b)
+				if accepted(b) {
+					used[i] = true
+					res.nbad++
+					res.journal = append(res.journal, fmt.Sprintf("peer %d: top block %d whose LastCommit has a garbage nil-vote slot", rq.p.num, rq.height))
+				}
+			} else {
+				node.deliver(rq.p, w.blocks[j])
+			}
+		case 4:
+			st := w.states[1]
+			b, _ := st.MakeBlock(rq.height+150, c13Txs(j, 3), w.commits[1], nil, st.Validators.GetProposer().Address)
+			node.deliver(rq.p, b)
+			used[i] = true
+			res.journal = append(res.journal, fmt.Sprintf("peer %d: block of height %d for request %d", rq.p.num, rq.height+150, rq.height))
+		case 5:
+			node.deliver(rq.p, w.blocks[j])
+			before := accepted(w.blocks[j])
+			node.deliver(rq.p, w.blocks[j])
+			if pn, _ := node.reqView(rq.height); before && pn != -1 {
+				used[i] = true
+				res.journal = append(res.journal, fmt.Sprintf("peer %d: block %d twice", rq.p.num, rq.height))
+			}
+		case 6:
+			if j == ps.height && j >= 2 {
+				foreign = w.mutate("foreign-addr", j-1, j-1, r)
+				foreignReal = w.realCommit(foreign)
+				node.deliver(rq.p, w.second(j-1, foreignReal))
+				res.journal = append(res.journal, fmt.Sprintf("peer %d: top block %d whose LastCommit has a foreign address in one slot", rq.p.num, rq.height))
+			} else {
+				node.deliver(rq.p, w.blocks[j])
+			}
+		}
+	}
+	deadline := time.Now().Add(time.Duration(vg.Scale(8, 12)) * time.Second)
+	var swres *c13Switch
+LOOP:
+	for time.Now().Before(deadline) {
+		var batch []c13Req
+		select {
+		case x := <-node.switchCh:
+			res.switched = true
+			swres = &x
+			break LOOP
+		case rq := <-node.reqCh:
+			batch = append(batch, rq)
+		case <-time.After(2 * time.Millisecond):
+		}
+	DRAIN:
+		for {
+			select {
+			case rq := <-node.reqCh:
+				batch = append(batch, rq)
+			default:
+				break DRAIN
+			}
+		}
+		for _, j := range r.Perm(len(batch)) {
+			serve(batch[j])
+		}
+	}
+	// the consensus state right after the blockchain reactor's own SwitchToConsensus
+	res.hob = node.observe(swres)
+	node.bcR.Stop() //nolint:errcheck
+	time.Sleep(20 * time.Millisecond)
+	hh := node.ex.blockStore.Height()
+	for j := int64(1); w.H(j) <= hh; j++ {
+		m := node.ex.blockStore.LoadBlockMeta(w.H(j))
+		x := int64(999)
+		for idn, bid := range w.bids {
+			if m != nil && bid.Equals(m.BlockID) {
+				x = idn
+			}
+		}
+		res.stored = append(res.stored, x)
+	}
+	res.ho = 2
+	res.h1 = res.h0
+	if hh > w.lastH(sc.start) {
+		// wait for the state of the last stored block
+		for i := 0; i < 200; i++ {
+			if st, err := node.ex.stateStore.Load(); err == nil && st.LastBlockHeight >= hh {
+				break
+			}
+			time.Sleep(5 * time.Millisecond)
+		}
+		res.ho = node.handover()
+		seen := node.ex.blockStore.LoadSeenCommit(hh)
+		switch {
+		case seen != nil && string(seen.Hash()) == string(w.commits[w.J(hh)].Hash()):
+			res.seenClass = 0
+		case seen != nil && foreignReal != nil && string(seen.Hash()) == string(foreignReal.Hash()):
+			res.seenClass = 1
+		default:
+			res.seenClass = 2
+		}
+	}
+	if st, err := node.ex.stateStore.Load(); err == nil {
+		res.h1 = st.LastBlockHeight
+	}
+	if swres != nil {
+		res.h1 = swres.state.LastBlockHeight
+	}
+	if sc.start > 0 {
+		res.seen0 = w.genuine(sc.start, sc.start)
+	}
+	if res.h1 > 0 {
+		j1 := w.J(res.h1)
+		seen := node.ex.blockStore.LoadSeenCommit(res.h1)
+		switch {
+		case seen != nil && j1 >= 1 && j1 <= L && string(seen.Hash()) == string(w.commits[j1].Hash()):
+			res.seen1 = w.genuine(j1, j1)
+		case seen != nil && foreignReal != nil && string(seen.Hash()) == string(foreignReal.Hash()):
+			res.seen1 = foreign
+		}
+	}
+	res.verified = true
+	for j := sc.start + 1; w.H(j) <= hh; j++ {
+		m := node.ex.blockStore.LoadBlockMeta(w.H(j))
+		if j > L || m == nil || !m.BlockID.Equals(w.ids[j]) || !w.c13VerifySeen(j, node.ex.blockStore.LoadSeenCommit(w.H(j))) {
+			res.verified = false
+		}
+	}
+	for i := range sc.peers {
+		res.stopped = append(res.stopped, !node.peers[i].IsRunning())
+	}
+	res.used = used
+	node.close()
+	return res
+}
+
+func (sc c13Scen) descr(w *c13World, res *c13ScenResult, stream int) string {
+	var pds []string
+	for i, ps := range sc.peers {
+		pds = append(pds, fmt.Sprintf("peer %d %s announces heights [%d,%d] stopped=%v bad-answer-used=%v", i+1, c13ScriptNames[ps.script],
+			w.H(ps.base), w.H(ps.height), res.stopped[i], res.used[i]))
+	}
+	return fmt.Sprintf("scenario %s: world %d (powers %v, InitialHeight %d), node starts with the first %d blocks (State.LastBlockHeight %d, consensus.NewState at start ok=%v); %s; responses in PRNG order (stream %d). Bad answers that entered a requester: %v. "+
+		"Observed: stored ids by position %v, SwitchToConsensus called by the blockchain reactor=%v with state.LastBlockHeight=%d skipWAL=%v -> %d (0 returned,1 panicked,2 not called,3 NewState at start panicked) %q, consensus height afterwards %d, LastCommit class %d (0 nil,1 = stored seen commit,2 other,3 n/a), running=%v; "+
+		"consensus.NewState on the result=%d (0 ok,1 panic,2 not run), seen commit of last block class %d, every stored block and seen commit verified by the harness=%v",
+		sc.name, sc.wi, w.powers, w.ih, sc.start, res.h0, res.startOK, strings.Join(pds, "; "), stream, res.journal,
+		res.stored, res.switched, res.h1, res.hob.skipWAL, res.hob.sres, res.hob.msg, res.hob.height, res.hob.lcc, res.hob.running,
+		res.ho, res.seenClass, res.verified)
+}
+
+func (sc c13Scen) scenTerm(res *c13ScenResult) string {
+	var canon, pts []string
+	for j := int64(1); j <= c13L; j++ {
+		canon = append(canon, vg.Z(j))
+	}
+	for i, ps := range sc.peers {
+		pts = append(pts, vg.Tup(vg.Z(int64(i+1)), vg.N(ps.script), vg.B(res.stopped[i]), vg.B(res.used[i])))
+	}
+	ho := res.ho
+	if res.hob.sres == 1 || res.hob.sres == 3 { // the real switch failed
+		ho = 1
+	}
+	return vg.App("CScen", vg.L(canon), vg.Z(sc.start), vg.ZL(res.stored), vg.Z(sc.tip), vg.L(pts), vg.Z(res.nbad),
+		vg.B(res.switched), vg.N(ho), vg.N(res.seenClass))
+}
+
+func c13CommitOpt(c *c13Commit) string {
+	if c == nil {
+		return "None"
+	}
+	cm, base, sigs := c.terms()
+	return vg.Opt(true, vg.Tup(cm, base, sigs))
+}
+
+func (sc c13Scen) handTerm(w *c13World, res *c13ScenResult) string {
+	start, sres := uint64(0), res.hob.sres
+	if !res.startOK {
+		start, sres = 1, 2
+	}
+	return vg.App("CHand", w.valsTerm(), vg.Z(1), vg.Z(w.ih), vg.Z(res.h0), vg.Z(res.h1),
+		c13CommitOpt(res.seen0), c13CommitOpt(res.seen1), vg.B(res.verified),
+		vg.Tup(vg.N(start), vg.N(sres), vg.Z(res.hob.height), vg.N(res.hob.lcc), vg.B(res.hob.running), vg.N(res.ho)))
+}
+
+// runs the wanted scenarios (par at a time; each mostly waits for the reactor's 1 s switch ticker)
+func c13RunAll(scens []c13Scen, root *vg.Rand, streamBase int, want func(k int) bool, par int) []*c13ScenResult {
+	c13GetWorlds()
+	out := make([]*c13ScenResult, len(scens))
+	sem := make(chan struct{}, par)
+	var wg sync.WaitGroup
+	for k := range scens {
+		if !want(k) {
+			continue
+		}
+		wg.Add(1)
+		go func(k int) {
+			defer wg.Done()
+			sem <- struct{}{}
+			defer func() { <-sem }()
+			out[k] = c13RunScen(scens[k], root.Fork(uint64(streamBase+k)))
+		}(k)
+	}
+	wg.Wait()
+	return out
+}
+
 func TestVerifC13Scenario(t *testing.T) {
 	cs := vg.NewCases("C13", "c13_scen", "TM.C13.Exec")
 	root := vg.NewRand(vg.Seed())
 	scens := c13Scenarios(root.Fork(999), vg.Scale(9, 120))
+	ids := make([]int, len(scens))
+	for k := range scens {
+		ids[k] = cs.NextID()
+	}
+	results := c13RunAll(scens, root, 1000, func(k int) bool { return cs.Want(ids[k]) }, 3)
 	for k, sc := range scens {
-		id := cs.NextID()
-		if !cs.Want(id) {
+		res := results[k]
+		if res == nil {
 			continue
 		}
-		r := root.Fork(uint64(1000 + k))
 		w := c13GetWorlds()[sc.wi]
-		node := c13NewNode(w, sc.start)
-		L := c13L
-		var padded, foreign *types.Commit
-		for _, ps := range sc.peers {
-			node.connect(ps.base, ps.height)
+		cs.Add(ids[k], "scen:"+strings.SplitN(sc.name, "-", 2)[0], len(sc.peers) > 1, sc.scenTerm(res), sc.descr(w, res, 1000+k))
+	}
+	if err := cs.Write(); err != nil {
+		t.Fatal(err)
+	}
+}
+
+// ------------------------------------------------------------------ TestVerifC13Handover
+
+func TestVerifC13Handover(t *testing.T) {
+	cs := vg.NewCases("C13", "c13_hand", "TM.C13.Exec")
+	root := vg.NewRand(vg.Seed())
+	ws := c13GetWorlds()
+	var scens []c13Scen
+	for wi := range ws {
+		if !vg.Thorough() && wi != 0 && wi < 3 { // quick: one world per InitialHeight
+			continue
 		}
-		used := make([]bool, len(sc.peers))
-		var journal []string
-		nbad := int64(0) // bad answers that entered a requester and will be part of a rejected pair
-		serve := func(rq c13Req) {
-			i := int(rq.p.num - 1)
-			ps, h := sc.peers[i], rq.height
-			if h < 1 || h > L || !rq.p.IsRunning() {
-				return
-			}
-			accepted := func(b *types.Block) bool {
-				pn, has := node.reqView(b.Height)
-				return has && pn == rq.p.num
-			}
-			switch ps.script {
-			case 0:
-				node.deliver(rq.p, w.blocks[h])
-			case 1:
-				if h%2 == 0 {
-					node.deliver(rq.p, w.alt[h])
-					// an alt block at the very tip L only ever serves as "second" of the pair
-					// (L-1, L); its LastCommit is the genuine commit of L-1, so nothing the node
-					// can check distinguishes it from the canonical block L, and it is never
-					// stored: not a bad answer the node could have acted on
-					if accepted(w.alt[h]) && h < L {
-						used[i] = true
-						nbad++
-						journal = append(journal, fmt.Sprintf("peer %d: alt block for height %d", rq.p.num, h))
-					}
-				} else {
-					node.deliver(rq.p, w.blocks[h])
-				}
-			case 2:
-				if h >= 2 {
-					b := w.second(h-1, w.realCommit(w.mutate("garbage-early", h-1, h-1, r)))
-					node.deliver(rq.p, b)
-					if accepted(b) {
-						used[i] = true
-						nbad++
-						journal = append(journal, fmt.Sprintf("peer %d: block %d with garbage signature in its LastCommit", rq.p.num, h))
-					}
-				} else {
-					node.deliver(rq.p, w.blocks[h])
-				}
-			case 3:
-				if h == L {
-					padded = w.realCommit(w.mutate("garbage-late-nil", h-1, h-1, r))
-					b := w.second(h-1, padded)
-					node.deliver(rq.p, b)
-					if accepted(b) {
-						used[i] = true
-						nbad++
-						journal = append(journal, fmt.Sprintf("peer %d: tip block %d whose LastCommit has a garbage nil-vote slot", rq.p.num, h))
-					}
-				} else {
-					node.deliver(rq.p, w.blocks[h])
-				}
-			case 4:
-				st := w.states[1]
-				b, _ := st.MakeBlock(h+150, c13Txs(h, 3), w.commits[1], nil, st.Validators.GetProposer().Address)
-				node.deliver(rq.p, b)
-				used[i] = true
-				journal = append(journal, fmt.Sprintf("peer %d: block of height %d for request %d", rq.p.num, h+150, h))
-			case 5:
-				node.deliver(rq.p, w.blocks[h])
-				before := accepted(w.blocks[h])
-				node.deliver(rq.p, w.blocks[h])
-				if pn, _ := node.reqView(h); before && pn != -1 {
-					used[i] = true
-					journal = append(journal, fmt.Sprintf("peer %d: block %d twice", rq.p.num, h))
-				}
-			case 6:
-				if h == L {
-					foreign = w.realCommit(w.mutate("foreign-addr", h-1, h-1, r))
-					node.deliver(rq.p, w.second(h-1, foreign))
-					journal = append(journal, fmt.Sprintf("peer %d: tip block %d whose LastCommit has a foreign address in one slot", rq.p.num, h))
-				} else {
-					node.deliver(rq.p, w.blocks[h])
-				}
-			}
+		scens = append(scens, c13HandScenarios(wi)...)
+	}
+	// random boundary syncs: start 0..2, 0..3 blocks to sync, a liar at or just above the honest tip
+	r := root.Fork(998)
+	for n := vg.Scale(len(scens)+8, len(scens)+200); len(scens) < n; {
+		start := int64(r.Intn(3))
+		tip := start + 1 + int64(r.Intn(4))
+		if tip > c13L-1 {
+			tip = c13L - 1
 		}
-		deadline := time.Now().Add(time.Duration(vg.Scale(8, 12)) * time.Second)
-		switched := false
-	LOOP:
-		for time.Now().Before(deadline) {
-			var batch []c13Req
-			select {
-			case <-node.cons.ch:
-				switched = true
-				break LOOP
-			case rq := <-node.reqCh:
-				batch = append(batch, rq)
-			case <-time.After(2 * time.Millisecond):
-			}
-		DRAIN:
-			for {
-				select {
-				case rq := <-node.reqCh:
-					batch = append(batch, rq)
-				default:
-					break DRAIN
-				}
-			}
-			for _, j := range r.Perm(len(batch)) {
-				serve(batch[j])
-			}
+		sc := c13Scen{name: fmt.Sprintf("random-%d", len(scens)), wi: r.Intn(len(ws)), start: start, tip: tip}
+		switch r.Intn(4) {
+		case 0:
+			sc.peers = append(sc.peers, c13PeerSpec{[]uint64{3, 6}[r.Intn(2)], tip + 1, tip + 1})
+		case 1:
+			sc.peers = append(sc.peers, c13PeerSpec{[]uint64{1, 2, 5}[r.Intn(3)], 1, tip})
 		}
-		node.bcR.Stop() //nolint:errcheck
-		time.Sleep(20 * time.Millisecond)
-		var stored []int64
-		for h := int64(1); h <= node.ex.blockStore.Height(); h++ {
-			m := node.ex.blockStore.LoadBlockMeta(h)
-			x := int64(999)
-			for idn, bid := range w.bids {
-				if m != nil && bid.Equals(m.BlockID) {
-					x = idn
-				}
-			}
-			stored = append(stored, x)
+		for i := 0; i < 2+r.Intn(2); i++ {
+			sc.peers = append(sc.peers, c13PeerSpec{0, 1, tip})
 		}
-		ho, seenClass := uint64(2), uint64(0)
-		if hh := node.ex.blockStore.Height(); hh > sc.start {
-			// wait for the state of the last stored block
-			for i := 0; i < 200; i++ {
-				if st, err := node.ex.stateStore.Load(); err == nil && st.LastBlockHeight >= hh {
-					break
-				}
-				time.Sleep(5 * time.Millisecond)
-			}
-			ho = node.handover()
-			seen := node.ex.blockStore.LoadSeenCommit(hh)
-			switch {
-			case seen != nil && string(seen.Hash()) == string(w.commits[hh].Hash()):
-				seenClass = 0
-			case seen != nil && foreign != nil && string(seen.Hash()) == string(foreign.Hash()):
-				seenClass = 1
-			default:
-				seenClass = 2
-			}
+		scens = append(scens, sc)
+	}
+	idS, idH := make([]int, len(scens)), make([]int, len(scens))
+	for k := range scens {
+		idS[k], idH[k] = cs.NextID(), cs.NextID()
+	}
+	results := c13RunAll(scens, root, 5000, func(k int) bool { return cs.Want(idS[k]) || cs.Want(idH[k]) }, vg.Scale(6, 8))
+	for k, sc := range scens {
+		res := results[k]
+		if res == nil {
+			continue
 		}
-		var canon []string
-		for h := int64(1); h <= L; h++ {
-			canon = append(canon, vg.Z(h))
+		w := ws[sc.wi]
+		d := sc.descr(w, res, 5000+k)
+		kind := strings.SplitN(sc.name, "-", 2)[0]
+		if cs.Want(idS[k]) {
+			cs.Add(idS[k], "hand-scen:"+kind, true, sc.scenTerm(res), d)
 		}
-		var pts, pds []string
-		for i, ps := range sc.peers {
-			p := node.peers[i]
-			pts = append(pts, vg.Tup(vg.Z(p.num), vg.N(ps.script), vg.B(!p.IsRunning()), vg.B(used[i])))
-			pds = append(pds, fmt.Sprintf("peer %d %s announces [%d,%d] stopped=%v bad-answer-used=%v", p.num, c13ScriptNames[ps.script], ps.base, ps.height, !p.IsRunning(), used[i]))
+		if cs.Want(idH[k]) {
+			cs.Add(idH[k], fmt.Sprintf("hand:ih%d:%s", w.ih, kind), true, sc.handTerm(w, res), d)
 		}
-		node.close()
-		term := vg.App("CScen", vg.L(canon), vg.Z(sc.start), vg.ZL(stored), vg.Z(sc.tip), vg.L(pts), vg.Z(nbad), vg.B(switched), vg.N(ho), vg.N(seenClass))
-		descr := fmt.Sprintf("scenario %s: world %d (powers %v), node starts with blocks 1..%d; %s; responses in PRNG order (stream %d). Bad answers that entered a requester: %v. Observed: stored ids by height %v, SwitchToConsensus called=%v, consensus.NewState=%d (0 ok,1 panic,2 not run), seen commit of last block class %d",
-			sc.name, sc.wi, w.powers, sc.start, strings.Join(pds, "; "), 1000+k, journal, stored, switched, ho, seenClass)
-		cs.Add(id, "scen:"+strings.SplitN(sc.name, "-", 2)[0], len(sc.peers) > 1, term, descr)
 	}
 	if err := cs.Write(); err != nil {
 		t.Fatal(err)
